@@ -16,7 +16,27 @@ theorem removed_subset_targets (i : Input) (f : String) (h : f ∈ removed i) :
   refine ⟨⟨h1, fun hr => ?_⟩, passes_spec i f h4⟩
   unfold targetFiles at h2
   rw [if_pos hr] at h2
-  exact h2
+  by_cases ht : i.repo.any (·.targeted) = true
+  · rw [if_pos ht] at h2
+    rw [List.any_eq_true] at ht
+    exact ⟨h2, ht⟩
+  · rw [if_neg ht] at h2; cases h2
+
+/-- **targets that match no package remove nothing**: a mistyped name, a version nobody provides, or a target that an
+exclusion cancels again never falls back to "clean everything" -/
+theorem no_targeted_package_removes_nothing (i : Input) (hr : i.opts.hasRestrict = true)
+    (hnone : ∀ p ∈ i.repo, p.targeted = false) : removed i = [] := by
+  have hany : i.repo.any (·.targeted) = false := by
+    rw [List.any_eq_false]
+    intro p hp; simp [hnone p hp]
+  cases h : removed i with
+  | nil => rfl
+  | cons f l =>
+    have hf : f ∈ removed i := by rw [h]; simp
+    have := ((mem_removed i f).1 hf).2.1
+    unfold targetFiles at this
+    rw [if_pos hr, hany] at this
+    cases this
 
 /-- **a needed file is never removed**: with `--installed` no distfile of an installed package, with `--exists` no
 distfile of any package in the repositories (with or without targets), with `--fetch-restricted` no distfile of a
